@@ -83,10 +83,49 @@ def gen_jobs(ctx):
             for n in sizes_small + sizes_big:
                 for _ in range(3):
                     jobs.append(_one(rng, k, n))
+    jobs += zone_block(ctx)
     # random multi-column frames
     for _ in range(400 if quick else 2500):
         spec = F.gen_spec(rng, n=rng.choice(sizes_small + ([257, 8193] if rng.random() < 0.1 else [])))
         jobs.append((spec, rt.gen_opts(rng, spec)))
+    return jobs
+
+
+# time zones of tz-aware columns and indexes: fixed offsets (datetime.timezone) around every place where the text form
+# "+HH:MM[:SS]" changes shape - the sign with a zero hour field, whole hours, half / quarter hours, the extremes of the
+# type, offsets that are not whole minutes - and named zones incl. ones with half-hour / 45-minute / historical offsets
+FIXED_ZONES = [-2700, -1800, -60, 60, 2700, -3600, 3600, -12600, 19800, 20700, 50400, -43200, -86340, 86340,
+               30, -30, 3630, -3599, -86399, 86399]
+NAMED_ZONES = ["UTC", "Europe/Berlin", "Asia/Kolkata", "Asia/Kathmandu", "America/St_Johns", "Australia/Lord_Howe",
+               "Pacific/Chatham", "Etc/GMT+12", "Etc/GMT-14", "America/New_York"]
+
+
+def zone_block(ctx):
+    """deterministic lattice (identical on every run) + options from the PRNG: every zone as a column and as the index"""
+    from harness import rt
+    import zoneinfo
+    rng = ctx.rng
+    zones = [{"fixed_s": s} for s in FIXED_ZONES] + [{"fixed_us": 1500000}, {"fixed_us": -2700000001}]
+    for z in NAMED_ZONES:
+        try:
+            zoneinfo.ZoneInfo(z)
+            zones.append(z)
+        except Exception:     # noqa: no tzdata for that name in this environment
+            pass
+    base = {"compression": None, "row_group_offsets": None, "has_nulls": True, "page_size": None, "dpv": 1, "stats": True,
+            "times": "int64", "object_encoding": "infer", "file_scheme": "simple", "write_index": None}
+    jobs = []
+    for i, z in enumerate(zones):
+        unit = ["ns", "us", "ms", "s"][i % 4]
+        col = {"name": "c0_dttz_%s" % unit, "kind": "dttz_%s" % unit, "nulls": "some", "seed": 777 + i, "tz": z}
+        jobs.append(({"n": 9, "cols": [col], "index": None}, dict(base)))
+        ix = {"name": "idx", "kind": "dttz_ns", "nulls": "none", "seed": 999 + i, "tz": z}
+        plain = {"name": "c0_int64", "kind": "int64", "nulls": "none", "seed": 5}
+        jobs.append(({"n": 9, "cols": [plain], "index": ix}, dict(base)))
+        if not ctx.quick() or i % 3 == rng.randrange(3):
+            spec = {"n": rng.choice([1, 8, 65]), "cols": [dict(col, seed=rng.randrange(1 << 30), nulls=rng.choice(F.NULL_PATTERNS))],
+                    "index": dict(ix) if rng.random() < 0.5 else None}
+            jobs.append((spec, rt.gen_opts(rng, spec)))
     return jobs
 
 
@@ -106,6 +145,9 @@ def run(ctx):
     wlevels.translate_skip(ctx)
     ctx.coq_file(os.path.join(C.COQ, "props", "C01.v"))
     ctx.coq_file(os.path.join(C.COQ, "props", "C01_pages.v"))
+    # wave 3: scratch buffers of the run headers (capacity table regenerated from writer.py) and the time-zone text
+    caps = wlevels.translate_scratch(ctx)
+    ctx.coq_file(os.path.join(C.COQ, "props", "C01_headers.v"))
     if os.path.exists(os.path.join(C.COQ, "props", "C01_chunk.v")):
         # chunk level: reader model (incl. the selfmade shortcuts) applied to the writer model's chunk = the column
         ctx.coq_file(os.path.join(C.COQ, "props", "C01_chunk.v"))
@@ -171,12 +213,47 @@ def run(ctx):
     # page-level tie: make_definitions / encode_dict / skip_definition_bytes vs Impl/WLevels.v + spec decoder oracle
     C.use_shadow()
     wlevels.run(ctx, pq)
+    wlevels.run_scratch(ctx, pq, caps)
+    wlevels.run_tz(ctx, pq)
     pq.close()
+
+
+def replay_function_case(case):
+    """re-execute a function-level case (time-zone text, run header at a given row count) on the real code"""
+    C.use_shadow()
+    from harness import wlevels
+    pq = C.Pqref()
+    try:
+        if "tz_seconds" in case:
+            s = case["tz_seconds"]
+            name, text, back = wlevels.tz_observe(s)
+            print("zone %s: recorded as %r, read back as %r" % (name, text, back))
+            return 0 if (back == [b"fixed", s] or (s == 0 and back == [b"name", b"UTC"])) else 1
+        if case.get("make_definitions") == "nonull" and "dpv" in case:
+            n, dpv = case["n"], case["dpv"]
+            impl = wlevels.nonull_block(n, dpv)
+            want = bytes(pq.call("wr_defs_nonull", dpv, n))
+            print("make_definitions(%d rows, no nulls, v%d): %s; block that decodes to %d ones: %s" % (n, dpv, impl.hex(), n, want.hex()))
+            return 0 if impl == want else 1
+        if "encode_dict" in case and case.get("codes") == "fake length":
+            from fastparquet import writer
+            k = int(case["encode_dict"][3:]) // 8
+            impl = bytes(writer.encode_dict(wlevels.FakeCodes(case["n"], k), None))
+            want = bytes(pq.call("wr_dict_head_cap", 64, k, case["n"]))
+            print("encode_dict head for %d codes: %s, must be %s" % (case["n"], impl.hex(), want.hex()))
+            return 0 if impl == want else 1
+        print(json.dumps(case)[:3000])
+        return 1
+    finally:
+        pq.close()
 
 
 def replay(rep):
     warnings.filterwarnings("ignore")
-    if rep.get("kind") == "no-failing-input-found" or "spec" not in rep.get("case", {}):
+    case = rep.get("case", {})
+    if rep.get("kind") != "no-failing-input-found" and ("tz_seconds" in case or "make_definitions" in case or "encode_dict" in case):
+        return replay_function_case(case)
+    if rep.get("kind") == "no-failing-input-found" or "spec" not in case:
         print(json.dumps(rep, indent=1)[:6000])
         return 1
     C.use_shadow()
